@@ -17,6 +17,7 @@ type RolloutOpts struct {
 	Lag         bool // environment may make a child lag its observedGeneration
 	Scale       bool // replicas may change (non-revisioned when custom field paths)
 	Small       bool // keep the configuration space tiny (exhaustive mode)
+	SingleEdit  bool // C09: only one parent change per scenario
 }
 
 // NewRolloutScn draws a rolling-update scenario: namespaced parent, dynamic
